@@ -67,16 +67,19 @@ where
     }
 }
 
-fn config(dir: &Path) -> Config {
+fn config(dir: &Path, max_secs: u64) -> Config {
     let mut c = Config::new();
     c.failure_persistence = FailurePersistence::File(Some(dir.to_path_buf()));
-    c.max_steps = MaxSteps::ContinueAfter(200_000);
+    // a caller spinning on a flag without yielding can monopolise a schedule: give such an
+    // iteration up after a bounded number of steps, and the lane after a bounded time
+    c.max_steps = MaxSteps::ContinueAfter(20_000);
+    c.max_time = Some(std::time::Duration::from_secs(max_secs));
     c.silence_warnings = true;
     c
 }
 
 /// One lane: `iterations` schedules from `seed`, in this process. Returns a JSON report.
-pub fn run_lane<W: World + 'static>(seed: u64, lane: u64, iterations: usize, dir: &Path) -> J
+pub fn run_lane<W: World + 'static>(seed: u64, lane: u64, iterations: usize, dir: &Path, max_secs: u64) -> J
 where
     W::Op: 'static,
 {
@@ -84,7 +87,7 @@ where
     let lane_seed = seed ^ (lane + 1).wrapping_mul(0xD1B5_4A32_D192_ED03);
     *LAST_VIOLATION.lock().unwrap() = None;
     let use_pct = lane % 4 == 3;
-    let cfg = config(dir);
+    let cfg = config(dir, max_secs);
     let r = std::panic::catch_unwind(std::panic::AssertUnwindSafe(move || {
         if use_pct {
             Runner::new(PctScheduler::new_from_seed(lane_seed, 3, iterations), cfg).run(|| scenario::<W>())
